@@ -163,6 +163,95 @@ theorem implicit_bound (b : Hint) : (TVDecl.mk [] (some b)).implicit = b := rfl
 theorem implicit_constraints (c₁ c₂ : Hint) (b : Option Hint) :
     (TVDecl.mk [c₁, c₂] b).implicit = Hint.app (Hint.app (Hint.con "Union") c₁) c₂ := rfl
 
+/-! ### Limit types: the implicit parameter does not depend on WHAT the bound is
+
+  `_derive_default` hands back the bound itself (the Union of the constraints).  It does not look at the bound: a
+  concrete class, an alias, an abstract collection type (`Sequence[int]`, `Mapping[str, int]`, bare `Sequence`), another
+  ABC, a Protocol, a model class — `b` ranges over every hint below (notes/C16-strengthening-4.md). -/
+
+/-- a declaration without constraints and with a bound: the implicit parameter is the bound, whatever it is -/
+theorem implicit_bound_any_limit (d : TVDecl) (b : Hint) (hc : d.constraints = []) (hb : d.bound = some b) :
+    d.implicit = b := by
+  simp [TVDecl.implicit, hc, hb]
+
+/-- in particular it is `Any` only when the bound is -/
+theorem implicit_bound_not_any (b : Hint) (hne : b ≠ anyHint) : (TVDecl.mk [] (some b)).implicit ≠ anyHint := by
+  simpa [TVDecl.implicit] using hne
+
+/-- **A field annotated by a parameter of a BARE class is handled with that parameter's implicit parameter**
+    (resolver model, any class table under the hypotheses of the main theorem, any declaration of the TypeVar). -/
+theorem bare_field_gets_implicit (H : Hierarchy) (hwf : Wf H) (hp : PrecedenceAgrees H) (ho : OverrideVisible H)
+    (hk : H.kind ≠ .pydantic) (c : Nat) (hc : c < H.classes.length) (k : Key) (v : TVar) (d : TVDecl)
+    (hown : (H.cls c).ownAnn.lookup k = some (.tv v)) (hv : v ∈ (H.cls c).params)
+    (hdecl : H.tvars.lookup v = some d) :
+    (resolve H ⟨c, none⟩).lookup k = some d.implicit := by
+  rw [shadowing_wins H hwf hp ho hk ⟨c, none⟩ hc k (.tv v) hown]
+  simp only [bindBase, implicitParams, Hint.subst]
+  rw [lookup_zip_map_self _ _ v hv]
+  simp [hdecl]
+
+/-- … so with a bound `b` — ANY hint — the field is handled as `b` … -/
+theorem bare_field_gets_bound (H : Hierarchy) (hwf : Wf H) (hp : PrecedenceAgrees H) (ho : OverrideVisible H)
+    (hk : H.kind ≠ .pydantic) (c : Nat) (hc : c < H.classes.length) (k : Key) (v : TVar) (b : Hint)
+    (hown : (H.cls c).ownAnn.lookup k = some (.tv v)) (hv : v ∈ (H.cls c).params)
+    (hdecl : H.tvars.lookup v = some ⟨[], some b⟩) :
+    (resolve H ⟨c, none⟩).lookup k = some b :=
+  bare_field_gets_implicit H hwf hp ho hk c hc k v _ hown hv hdecl
+
+/-- … exactly as if the class had been subscribed with the bound explicitly (one-parameter class). -/
+theorem bare_field_as_explicit_bound (H : Hierarchy) (hwf : Wf H) (hp : PrecedenceAgrees H) (ho : OverrideVisible H)
+    (hk : H.kind ≠ .pydantic) (c : Nat) (hc : c < H.classes.length) (k : Key) (v : TVar) (b : Hint)
+    (hown : (H.cls c).ownAnn.lookup k = some (.tv v)) (hps : (H.cls c).params = [v])
+    (hdecl : H.tvars.lookup v = some ⟨[], some b⟩) :
+    (resolve H ⟨c, none⟩).lookup k = (resolve H ⟨c, some [b]⟩).lookup k := by
+  rw [bare_field_gets_bound H hwf hp ho hk c hc k v b hown (by simp [hps]) hdecl,
+    shadowing_wins H hwf hp ho hk ⟨c, some [b]⟩ hc k (.tv v) hown]
+  simp [bindBase, hps, Hint.subst, Hint.subst_nil]
+
+/-- **A guard on the nature of the bound is refuted**: a `_derive_default` that answers `Any` for the bounds some
+    predicate singles out ("abstract class", "Protocol", …) and agrees with the code elsewhere contradicts the
+    documented table as soon as the predicate holds for one bound other than `Any` itself — `Sequence[int]`, say. -/
+theorem abstract_bound_guard_refuted (isAbstract : Hint → Bool) (f : TVDecl → Hint)
+    (hf : ∀ d : TVDecl, f d = if d.constraints.isEmpty && (d.bound.map isAbstract).getD false then anyHint
+                              else d.implicit)
+    (b : Hint) (hb : isAbstract b = true) (hne : b ≠ anyHint) :
+    f ⟨[], some b⟩ ≠ (TVDecl.mk [] (some b)).implicit := by
+  rw [hf]
+  simp only [List.isEmpty_nil, Option.map_some, Option.getD_some, hb, Bool.and_self, if_true]
+  exact fun h => hne (by simpa [TVDecl.implicit] using h.symm)
+
+/-- non-vacuity: a class table whose TypeVars are limited by ABSTRACT collection types satisfies every hypothesis -/
+example : Wf boundedBatch ∧ PrecedenceAgrees boundedBatch ∧ OverrideVisible boundedBatch ∧ MroMonotone boundedBatch ∧
+    NoConflict boundedBatch := by decide
+
+/-- bare `Batch` (top-level position): `items: Sequence[int]`, `rows: List[Sequence[int]]` — what `Batch[Sequence[int]]` gives -/
+example : resolve boundedBatch ⟨0, none⟩ = [("items", seqOf intH), ("rows", listOf (seqOf intH))] ∧
+    resolve boundedBatch ⟨0, none⟩ = resolve boundedBatch ⟨0, some [seqOf intH]⟩ := by decide
+
+/-- `class NamedBatch(Batch)` (bare parent in the list of bases) -/
+example : resolve boundedBatch ⟨1, none⟩ =
+    [("items", seqOf intH), ("rows", listOf (seqOf intH)), ("name", strH)] := by decide
+
+/-- constraints: the Union of the (abstract) constraints; the unbounded parameter next to it gets `Any` -/
+example : resolve boundedBatch ⟨2, none⟩ =
+    [("scores", unionOf [mappingOf strH intH, seqOf intH]), ("tag", anyHint)] := by decide
+
+/-- the bounded TypeVar threaded through `Deep(Batch[S], Generic[S])` and left bare one level below -/
+example : resolve boundedBatch ⟨4, none⟩ = [("items", seqOf intH), ("rows", listOf (seqOf intH))] ∧
+    declaredType boundedBatch ⟨4, none⟩ "items" = some (seqOf intH) := by decide
+
+/-- `bare_field_gets_bound`, hypotheses discharged -/
+example : (resolve boundedBatch ⟨0, none⟩).lookup "items" = some (seqOf intH) :=
+  bare_field_gets_bound boundedBatch (by decide) (by decide) (by decide) (by decide) 0 (by decide) "items" 0
+    (seqOf intH) (by decide) (by decide) rfl
+
+/-- `abstract_bound_guard_refuted` with the guard "the origin is `Sequence` or `Mapping`" -/
+example : (fun d : TVDecl => if d.constraints.isEmpty &&
+      (d.bound.map fun b => b.head == .con "Sequence" || b.head == .con "Mapping").getD false
+    then anyHint else d.implicit) ⟨[], some (seqOf intH)⟩ ≠ (TVDecl.mk [] (some (seqOf intH))).implicit :=
+  abstract_bound_guard_refuted (fun b => b.head == .con "Sequence" || b.head == .con "Mapping") _ (fun _ => rfl)
+    (seqOf intH) (by decide) (by decide)
+
 /-- **Composition along the chain of base subscriptions**: replacing the
     parameters of a base by its written arguments and then the parameters of
     the subclass by theirs is one substitution with the rewritten arguments
